@@ -36,8 +36,10 @@ AlgOK(in) == in.keytype = "ec" => Signer(in) \in {"signSetter", "encSetter"}
 Keys  == { x \in { [Base EXCEPT !.sub = "keys", !.kind = k, !.encKey = e, !.signKey = s, !.alg = a, !.c14n = c, !.keytype = kt] :
                      k \in Kinds, e \in KeySrc, s \in KeySrc, a \in Algs, c \in C14Ns, kt \in {"rsa", "ec"} } :
              Signer(x) # "none" /\ AlgOK(x) }
+\* via: how the message is serialised -- "doc": the returned document; "post": through the POST-binding form builder
 Shape == { [Base EXCEPT !.sub = "shape", !.kind = k, !.spIssuer = i, !.forceAuthn = f, !.isPassive = p, !.nameIdFormat = n,
-                        !.rac = r, !.zone = z, !.strclass = sc, !.signReq = sr] :
+                        !.rac = r, !.zone = z, !.strclass = sc, !.signReq = sr, !.via = v] :
+             v \in {"doc", "post"},
              k \in Kinds, i \in BOOLEAN, f \in BOOLEAN, p \in BOOLEAN, n \in BOOLEAN, r \in {"nil", "zero", "one", "two"},
              z \in {"utc", "+0530", "-0800", "dst"}, sc \in StrClasses, sr \in BOOLEAN }
 Meta  == { x \in { [Base EXCEPT !.sub = "meta", !.kind = "metadata", !.variant = v, !.hours = h, !.signReq = sr, !.skip = sk,
